@@ -1,4 +1,114 @@
-import TR.Model.Circuit
+import TR.Lemmas.CircuitState
+/-!
+# C03 — an open circuit breaker shields the inner service
+
+Quantification: every configuration, every list of operations (= any number of callers on
+clones, every interleaving of admissions, completions, outcome recordings, cancellations,
+manual overrides and time advances), with and without fallback, opening by failure rate,
+slow-call rate or `force_open`.
+-/
 namespace TR.Props.C03
-theorem placeholder : 1 = 1 := rfl
+open TR TR.Circuit
+
+/-- In every reachable state in which the breaker is open, no inner call has been started
+since the transition that opened it (`callsSince` counts `inner_call` events after the last
+`transition` event of the log). Since this holds after *every* step, no step taken while the
+breaker stays open emits an `inner_call`. -/
+theorem open_shields (cfg : Cfg) (ops : List Op) (h : (run cfg ops).circ.st = .opened) :
+    callsSince (run cfg ops).log = 0 :=
+  (sinv_reachable cfg ops).shield h
+
+/-- The state the model is in is the state an observer of the `on_state_transition` events
+has last seen, and `last_state_change` is the instant of that event. -/
+theorem observed_state (cfg : Cfg) (ops : List Op) :
+    lastTarget (run cfg ops).log = (run cfg ops).circ.st ∧
+    lastTrTime (run cfg ops).log = (run cfg ops).circ.lastChange ∧
+    (run cfg ops).circ.lastChange ≤ (run cfg ops).now :=
+  ⟨(sinv_reachable cfg ops).target, (sinv_reachable cfg ops).trTime, (sinv_reachable cfg ops).clock⟩
+
+/-- The lock-free mirror read by `state_sync()` / `is_open()` always equals the state behind the mutex. -/
+theorem mirror_agrees (cfg : Cfg) (ops : List Op) : (run cfg ops).circ.mirror = (run cfg ops).circ.st :=
+  (sinv_reachable cfg ops).circ.mirror
+
+/-- A caller first polled while the breaker is open and `wait_duration_in_open` has not elapsed
+is answered in that very step with the open-circuit error (or the fallback), the circuit is
+untouched, and nothing else happens: in particular no `inner_call`. Holds in *any* state. -/
+theorem rejected_touches_nothing (cfg : Cfg) (s : State) (f : Fresh)
+    (hst : s.circ.st = .opened) (hw : s.now - s.circ.lastChange < cfg.waitMs) :
+    pollFresh cfg s f = rejected cfg s f := by
+  have hacq := tryAcquire_acq cfg s.circ s.now
+  cases hacq with
+  | closed h => rw [hst] at h; cases h
+  | toHalf h hw' => omega
+  | rejectOpen h hw' hc hok he =>
+    unfold pollFresh; simp only
+    rw [admitStep_rej cfg s f hok hc he]; simp
+  | trial h => rw [hst] at h; cases h
+  | rejectHalf h => rw [hst] at h; cases h
+
+/-- If a caller is admitted while the breaker is open, then `wait_duration_in_open` had elapsed
+and the breaker moved to half-open first (the admission's first event is that transition). -/
+theorem admitted_from_open (cfg : Cfg) (s : State) (f : Fresh) (hst : s.circ.st = .opened)
+    (hok : (admitStep cfg s f).2 = true) :
+    s.now - s.circ.lastChange ≥ cfg.waitMs ∧ (admitStep cfg s f).1.circ.st = .halfOpen ∧
+    (admitStep cfg s f).1.log =
+      s.log ++ [(s.now, CEv.transition .opened .halfOpen), (s.now, CEv.innerCall f.c s.serial)] := by
+  have hacq := tryAcquire_acq cfg s.circ s.now
+  cases hacq with
+  | closed h => rw [hst] at h; cases h
+  | toHalf h hw hok' he h2 =>
+    rw [admitStep_ok cfg s f hok']
+    refine ⟨hw, h2, ?_⟩
+    simp [admitted, he]
+  | rejectOpen h hw' hc hok' he => rw [admitStep_rej cfg s f hok' hc he] at hok; cases hok
+  | trial h => rw [hst] at h; cases h
+  | rejectHalf h => rw [hst] at h; cases h
+
+/-- The open state is left only by a manual `force_closed` / `reset`, or by the first poll of a
+caller once `wait_duration_in_open` has elapsed. Completions and cancellations of calls
+admitted earlier never close or half-open it. -/
+theorem leaves_open_only_after_wait_or_manual (cfg : Cfg) (s : State) (op : Op)
+    (hst : s.circ.st = .opened) (hleft : (stepS cfg s op).circ.st ≠ .opened) :
+    op = .forceClosed ∨ op = .reset ∨ ∃ c, op = .poll c ∧ s.now - s.circ.lastChange ≥ cfg.waitMs := by
+  cases op with
+  | adv ms => exact absurd hst hleft
+  | arrive c sc tag => simp only [stepS] at hleft; split at hleft <;> exact absurd hst hleft
+  | poll c =>
+    right; right
+    refine ⟨c, rfl, ?_⟩
+    by_cases hw : s.now - s.circ.lastChange ≥ cfg.waitMs
+    · exact hw
+    · exfalso
+      simp only [stepS] at hleft
+      split at hleft
+      · rename_i f _
+        rw [rejected_touches_nothing cfg s f hst (by omega)] at hleft
+        exact hleft hst
+      · exact hleft (pollRunning_opened cfg s c hst)
+  | drop c =>
+    simp only [stepS] at hleft
+    split at hleft
+    · exact absurd hst hleft
+    · split at hleft
+      · unfold dropRunning at hleft; simp only at hleft
+        rw [releaseTrial_st] at hleft; exact absurd hst hleft
+      · exact absurd hst hleft
+  | forceOpen =>
+    simp only [stepS, emit_circ] at hleft
+    rw [transitionTo_st] at hleft; exact absurd rfl hleft
+  | forceClosed => left; rfl
+  | reset => right; left; rfl
+  | views => exact absurd hst hleft
+
+/-- Non-vacuity: a breaker opened by failures rejects at `wait − 1` and admits (moving to
+half-open) at exactly `wait`. -/
+example :
+    let cfg : Cfg := { size := 2, minCalls := 2, waitMs := 30, permitted := 1 }
+    let pre := [Op.arrive 1 ⟨0, .err 1⟩ 0, .poll 1, .arrive 2 ⟨0, .err 1⟩ 0, .poll 2]
+    (run cfg pre).circ.st = .opened ∧
+    (run cfg (pre ++ [.adv 29, .arrive 3 ⟨0, .ok⟩ 0, .poll 3])).circ.st = .opened ∧
+    (run cfg (pre ++ [.adv 29, .arrive 3 ⟨0, .ok⟩ 0, .poll 3])).serial = 2 ∧
+    (run cfg (pre ++ [.adv 30, .arrive 3 ⟨5, .ok⟩ 0, .poll 3])).circ.st = .halfOpen ∧
+    (run cfg (pre ++ [.adv 30, .arrive 3 ⟨5, .ok⟩ 0, .poll 3])).serial = 3 := by decide
+
 end TR.Props.C03
